@@ -20,7 +20,8 @@ BINDINGS = ["visible-undeclared", "declared-parameter", "local-assigned-earlier"
             "assigned-in-except-earlier", "except-as-name-earlier", "assigned-in-for-else-earlier", "assigned-in-try-finally-earlier", "local-import-earlier", "local-from-import-earlier",
             "local-def-earlier", "local-class-earlier", "tuple-unpack-earlier", "starred-unpack-earlier", "walrus-earlier", "match-capture-earlier", "assigned-in-match-case-earlier",
             "assigned-in-while-body-earlier", "nested-with-as-tuple-earlier", "async-for-target-earlier", "assigned-in-except-star-earlier", "assigned-earlier-and-rebound-later", "augmented-earlier-and-rebound-later",
-            "visible-undeclared-fixture-of-the-same-file-defined-above", "visible-undeclared-fixture-of-the-same-file-defined-below"]
+            "visible-undeclared-fixture-of-the-same-file-defined-above", "visible-undeclared-fixture-of-the-same-file-defined-below",
+            "declared-as-varargs", "declared-as-kwargs", "visible-undeclared-fixture-the-conftest-star-imports"]
 FLAVOURS = ["test", "fixture", "fixture-named-like-a-test"]
 DIMS = [("shape", SHAPES), ("body", BODIES), ("binding", BINDINGS), ("flavour", FLAVOURS)]
 
@@ -56,7 +57,7 @@ def body_lines(form, N):
 def build(a):
     shape, form, bind, flav = SHAPES[a["shape"]], a["body"], BINDINGS[a["binding"]], FLAVOURS[a["flavour"]]
     N = {"only-in-sibling-conftest": "sibfx", "unknown-name": "nofx", "visible-undeclared-fixture-of-the-same-file-defined-above": "localfx",
-         "visible-undeclared-fixture-of-the-same-file-defined-below": "localfx"}.get(bind, "fx")
+         "visible-undeclared-fixture-of-the-same-file-defined-below": "localfx", "visible-undeclared-fixture-the-conftest-star-imports": "impfx"}.get(bind, "fx")
     L = ["import pytest", ""]
     if bind == "visible-undeclared-fixture-of-the-same-file-defined-above": L += ["@pytest.fixture", "def localfx():", "    return 1", ""]
     if bind == "module-level-assignment": L += ["%s = 1" % N, ""]
@@ -69,7 +70,7 @@ def build(a):
     if flav != "test": L.append(ind + "@pytest.fixture")
     if shape == "decorated": L.append(ind + "@pytest.mark.skip")
     p = "a"
-    declared = [N] if bind == "declared-parameter" else []
+    declared = [N] if bind == "declared-parameter" else ["*" + N] if bind == "declared-as-varargs" else ["**" + N] if bind == "declared-as-kwargs" else []
     kw = "async def" if (shape == "async" or BODIES[form] in ("await", "in-async-with", "in-async-for") or bind == "async-for-target-earlier") else "def"
     def sig(params, tail=":"):
         return ind + "%s %s(%s)%s" % (kw, name, ", ".join(params), tail)
